@@ -235,7 +235,7 @@ class Engine:
         Engine._instances = getattr(Engine, '_instances', 0) + 1
         sfx = '' if Engine._instances == 1 else '__%d' % Engine._instances
         for name, c in self.sidecar.specs.items():
-            sorts = [self.KIND_SORT[ty] for _, ty in c.params]
+            sorts = [srt for _, ty in c.params for srt in self.kind_sorts(ty)]
             ret = self.KIND_SORT[c.ret or 'val']
             # ('sp_' keeps specification names clear of SMT-LIB theory symbols such as `select`)
             if c.options.get('uninterpreted') or name in self.inline_specs:
@@ -247,18 +247,27 @@ class Engine:
             if c.options.get('uninterpreted') or name in self.inline_specs:
                 continue
             f, kinds, retk = self.spec_funcs[name]
-            params = [z3.Const('%s_%s' % (name, p), self.KIND_SORT[ty]) for p, ty in c.params]
+            params = []
             ex = Exec(self, None, None, spec_mode=True)
             env = {}
-            for (p, ty), z in zip(c.params, params):
-                env[p] = self.wrap_kind(z, ty)
+            for p, ty in c.params:
+                zs = [z3.Const('%s_%s_%d' % (name, p, j), srt) for j, srt in enumerate(self.kind_sorts(ty))]
+                params.extend(zs)
+                env[p] = self.wrap_kind(zs[0] if len(zs) == 1 else zs, ty)
             ex.env = env
             ex.module = None
             body = ex.merge_block([s for s in c.fn.body
                                    if not (isinstance(s, ast.Expr) and isinstance(s.value, ast.Constant))])
             z3.RecAddDefinition(f, params, vl.simp(self.unwrap_kind(body, retk)))
 
+    def kind_sorts(self, ty):
+        if ty == 'dict':
+            return [SetVal, vl.MapVal]
+        return [self.KIND_SORT[ty]]
+
     def wrap_kind(self, z, ty):
+        if ty == 'dict':
+            return SDict(z[0], z[1], None)
         if ty == 'str':
             return V(VStr(z))
         if ty == 'int':
@@ -282,6 +291,13 @@ class Engine:
         if ty == 'seq':
             return V(VList(z))
         raise Unsupported('kind ' + ty)
+
+    def unwrap_kinds(self, sv, ty):
+        if ty == 'dict':
+            if not isinstance(sv, SDict) or sv.vkind != 'val':
+                raise Unsupported('expected a dict')
+            return [sv.dom, sv.val]
+        return [self.unwrap_kind(sv, ty)]
 
     def unwrap_kind(self, sv, ty):
         if ty == 'str':
@@ -340,13 +356,18 @@ class Engine:
             v = fresh(name, Val)
             assume(z3.Or(is_none(v), is_str(v), is_int(v), is_float(v)))
             return V(v)
-        if ty in ('optlist', 'optdict', 'optodict') and ex is not None:
+        if ty in ('optlist', 'optdict', 'optodict', 'optset') and ex is not None:
             if ex.branch(fresh(name + '_is_none', vl.Bool)):
                 return V(VNone)
-            return self.make_param(name, {'optlist': 'list', 'optdict': 'dict', 'optodict': 'odict'}[ty], assume, ex)
+            return self.make_param(name, {'optlist': 'list', 'optdict': 'dict', 'optodict': 'odict',
+                                          'optset': 'set'}[ty], assume, ex)
         if ty == 'set':
             z = fresh(name, vl.SetS)
-            return SSet(pred=lambda k, z=z: vl.set_mem(z, k), sid=z)
+            st = SSet(pred=lambda k, z=z: vl.set_mem(z, k), sid=z)
+            st.nonempty = fresh(name + '_nonempty', vl.Bool)
+            k = fresh('k', Val)
+            assume(z3.Or(st.nonempty, z3.ForAll([k], z3.Not(vl.set_mem(z, k)))))
+            return st
         if ty == 'Model':
             return SModel(fresh(name, vl.ModelS))
         if ty == 'dict':
@@ -393,6 +414,10 @@ def as_bool(sv):
             return t.arg(0)
         return vl.simp(truthy(t))
     if isinstance(sv, SSet):
+        if getattr(sv, 'nonempty', None) is not None:
+            return sv.nonempty
+        if sv.pred is None and sv.exc is None:
+            return z3.Length(sv.inc) > 0
         raise Unsupported('truthiness of a set')
     if isinstance(sv, SDict):
         if sv.keys is not None:
@@ -1389,7 +1414,7 @@ BUILTIN_NAMES = {'len', 'isinstance', 'str', 'list', 'set', 'dict', 'tuple', 're
                  # specification vocabulary
                  'implies', 'has', 'old', 'forall_idx', 'exists_idx', 'is_str', 'is_int', 'is_none',
                  'is_tuple', 'is_list', 'is_float', 'is_bool', 'is_obj', 'is_inst', 'in_re',
-                 'set_of_seq', 'set_add', 'set_union', 'set_where', 'subset', 'dict_has', 'dict_get', 'dict_keys',
+                 'set_of_seq', 'set_add', 'set_union', 'set_where', 'subset', 'dict_has', 'dict_get', 'dict_keys', 'dict_values_str',
                  'mk', 'noop', 'norm_has', 'norm_get', 'reif_has', 'reif_get', 'dereif_has', 'dereif_get',
                  'top_role', 'aln_marker', 'aln_ok', 'str_of', 'json_dumps', 'keyof', 'key_le', 'seq_eq',
                  'is_atomic', 'last_index', 'fld', 'is_sorted_by', 'perm_of', 'multiset_eq'}
